@@ -97,15 +97,21 @@ def run_case(case):
             for serial in (True, False):
                 runs.append((fields, limit, serial))
 
-    def one(fields, limit, serial, canary=False):
+    def one(fields, limit, serial, canary=False, again=False):
         def path(ctx):
             fs = SymFS()
             ref.write_symfs(fs, '/work/plt')
             obl = Obl(ctx)
             what = 'Mandoline(fields=%r, limit_level=%r, serial=%r).slice(fformat="return")' % (fields, limit, serial)
+            if again:
+                what = 'm = Mandoline(fields=%r, limit_level=%r, serial=%r); m.slice(fformat="return"); m.slice(fformat="return")' % (fields, limit, serial)
             with patch.Patched(mods, fs), common.quiet():
                 try:
-                    out = Mandoline('plt', fields=list(fields), limit_level=limit, serial=serial, verbose=0).slice(fformat='return')
+                    m = Mandoline('plt', fields=list(fields), limit_level=limit, serial=serial, verbose=0)
+                    if again:
+                        # one retained object flattens twice: the second result is judged
+                        m.slice(fformat='return')
+                    out = m.slice(fformat='return')
                 except Exception as e:
                     obl.fail('%s raised %s: %s' % (what, type(e).__name__, str(e)[:120]))
                     return obl
@@ -126,6 +132,14 @@ def run_case(case):
                 sig = 'C08/%s/%s/%s' % ('limit' if limit is not None and limit < ref.nlev - 1 else 'finest', 'serial' if serial else 'parallel', kind)
                 if sig not in viol:
                     viol[sig] = {'signature': sig, 'what': msg, 'args': [fields, limit, serial]}
+    fl_ = field_lists(ref.fields)
+    for fields, limit, serial in [(fl_[3 % len(fl_)], None, False), (fl_[-1], 0, True)]:
+        results, exhaustive, stats = one(fields, limit, serial, again=True)
+        res.add_explore(results, exhaustive, stats)
+        for ctx, obl in results:
+            res.add_obl(obl)
+            if obl.failed and 'C08/history' not in viol:
+                viol['C08/history'] = {'signature': 'C08/history', 'what': obl.failed[0][0], 'args': [fields, limit, serial], 'again': True}
     cres, _, _ = one([ref.fields[0]], None, True, canary=True)
     res['canaries'] += 1
     if cres and cres[0][1].failed:
@@ -168,7 +182,7 @@ def make_replay(ref, v):
         cov, lev = covering.covering(cref, lim, ref.fields.index(n))
         exp[n] = replay_lib._arr_hex(np.array(cov, dtype=float).T)
     _, lev = covering.covering(cref, lim, 0)
-    case = {'property': 'C08', 'handler': 'c08', 'signature': v['signature'], 'what': v['what'], 'args': v['args'],
+    case = {'property': 'C08', 'handler': 'c08', 'signature': v['signature'], 'what': v['what'], 'args': v['args'], 'again': bool(v.get('again')),
             'expected': exp, 'grid_level': lev.T.tolist() if (fields == ['all'] or 'grid_level' in fields) else None,
             'x': [float(x) for x in covering.centres(ref, lim, 0)], 'y': [float(x) for x in covering.centres(ref, lim, 1)]}
     with open(os.path.join(d, 'case.json'), 'w') as f:
